@@ -82,3 +82,10 @@ contract(FB, "Fiber._flattenCoords",
                    "linear": dict(requires=["not isnone(shape)"], ensures=["result == c1 * val(shape) + c0"])},
          ensures={"C09": []},
          note="the stated combination of an upper and a lower integer coordinate for each flattening style (tuple coordinates: bounded part)")
+
+# ---------------------------------------------------------------- dictionary form of a payload (C13), leaf values
+contract(PL, "Payload.payload2dict", cases=[dict(payload="Payload"), dict(payload="U")], case_names=["box", "scalar"],
+         returns=["U", "U"], modifies=[],
+         per_case={"box": dict(ensures=["result == payload.value"]), "scalar": dict(ensures=["result == payload"])},
+         ensures={"C13": []},
+         note="the dictionary form of a leaf payload is its bare value (sub-fibers recurse through fiber2dict: bounded part)")
